@@ -14,7 +14,10 @@ def find_rounds(t, acc):
 
 def run(eng, tier):
     # ---- R-const: every rounding in the crate is round_dp_with_strategy(0, MidpointAwayFromZero)
-    sites = [c for c in eng.s.get('callsites', []) if 'round' in c['callee'].rsplit('::', 1)[-1].lower() or c['callee'].rsplit('::', 1)[-1] in ('trunc', 'floor', 'ceil', 'normalize', 'rescale')]
+    # crate-local helpers are not rounding primitives: they are inlined and the library call inside them is the site checked
+    local_fns = set(f['def'] for f in eng.s['misc'].get('fn_sigs', [])) | set(c['caller'] for c in eng.s.get('callsites', []))
+    sites = [c for c in eng.s.get('callsites', []) if c['callee'] not in local_fns and (c.get('resolved') or c['callee']) not in local_fns and
+             ('round' in c['callee'].rsplit('::', 1)[-1].lower() or c['callee'].rsplit('::', 1)[-1] in ('trunc', 'floor', 'ceil', 'normalize', 'rescale'))]
     good = [c for c in sites if c['callee'].endswith('Decimal::round_dp_with_strategy')]
     for c in sites:
         eng.ob(c in good, PROP, 'rounding-api', c['callee'].rsplit('::', 1)[-1] + '@' + c['caller'], 'rounding by %s in %s: every rounding must be round_dp_with_strategy(0, MidpointAwayFromZero)' % (c['callee'], c['caller']), where=c['span'])
